@@ -553,3 +553,44 @@ Proof.
 Qed.
 
 End Final.
+
+(* the same at the level of ShardedFileAccessor.store_chunk (chunk origins) *)
+Definition resolves (v : vspec) (op : store_op) (c : N * bytes) : Prop :=
+  let '(x, y, z, b) := op in get_cmc_model v x y z = Ok (fst c) /\ b = snd c.
+
+Lemma run_stores_cmc : forall sp enc v ops cms st,
+  Forall2 (resolves v) ops cms ->
+  run_stores sp enc v st ops = run_cmc_stores sp enc st cms.
+Proof.
+  intros sp enc v ops cms st H. revert st. induction H as [|[[[x y] z] b] [c b'] ops cms Hr Hf IH]; intro st.
+  - reflexivity.
+  - simpl in Hr. destruct Hr as [Hc ->]. simpl run_stores. simpl run_cmc_stores.
+    unfold store_chunk. rewrite Hc. destruct (scale_store_cmc sp enc st b' c) as [st1 o].
+    rewrite IH. reflexivity.
+Qed.
+
+Lemma forall2_length : forall {A B} (R : A -> B -> Prop) l1 l2, Forall2 R l1 l2 -> length l1 = length l2.
+Proof. intros A B R l1 l2 H. induction H; simpl; congruence. Qed.
+
+Theorem session_order_independent : forall sp enc ienc v ops1 ops2 cms1 cms2,
+  cbits sp < 2 ^ 64 ->
+  Forall2 (resolves v) ops1 cms1 -> Forall2 (resolves v) ops2 cms2 ->
+  ops_valid sp cms1 -> Permutation cms1 cms2 ->
+  fst (run_session sp enc ienc v ops1) = map (fun _ => Ok tt) ops1 /\
+  fst (run_session sp enc ienc v ops2) = map (fun _ => Ok tt) ops2 /\
+  snd (run_session sp enc ienc v ops1) = snd (run_session sp enc ienc v ops2).
+Proof.
+  intros sp enc ienc v ops1 ops2 cms1 cms2 HB F1 F2 Hv Hp.
+  destruct (order_independent sp enc ienc HB cms1 cms2 Hv Hp) as (O1 & O2 & Ef).
+  unfold run_session.
+  rewrite (run_stores_cmc sp enc v ops1 cms1 [] F1), (run_stores_cmc sp enc v ops2 cms2 [] F2).
+  destruct (run_cmc_stores sp enc [] cms1) as [s1 o1]. destruct (run_cmc_stores sp enc [] cms2) as [s2 o2].
+  cbn [fst snd] in *. subst o1 o2.
+  assert (L1 : length ops1 = length cms1) by (eapply forall2_length; exact F1).
+  assert (L2 : length ops2 = length cms2) by (eapply forall2_length; exact F2).
+  assert (Hm : forall {A B} (l1 : list A) (l2 : list B), length l1 = length l2 ->
+                map (fun _ => @Ok unit tt) l2 = map (fun _ => Ok tt) l1).
+  { intros A B l1. induction l1 as [|a r IH]; intros [|b r2] H; simpl in *; try discriminate; [reflexivity|].
+    f_equal. apply IH. lia. }
+  rewrite (Hm _ _ ops1 cms1 L1), (Hm _ _ ops2 cms2 L2). repeat split. exact Ef.
+Qed.
